@@ -18,11 +18,11 @@ RULE = ('random trajectory sets (1-6 trajectories, lengths incl. 1 and below the
         'Non-trivial: >= 2 non-zero rows in C and (a trajectory not longer than the lag or >= 2 trajectories).')
 TRUSTED = ['float division within 1e-12 of the exact quotient (measured on every case, not proved)',
            'numba typed-list conversion is exercised, not modelled']
-ASSUMPTIONS = ['labels within +-2^29', 'every trajectory has at least one frame']
+ASSUMPTIONS = ['labels within +-2^29', 'zero-length trajectories only as typed integer arrays (a python [] becomes a float array and is rejected by the library)']
 BATCH = 5000
 
 
-def gen(rng, tier):
+def _gen0(rng, tier):
     n = G.budget(500) if tier == 'quick' else 15000
     for _ in range(n):
         labs, akind = G.alphabet(rng)
@@ -40,6 +40,21 @@ def gen(rng, tier):
         labs, akind = G.alphabet(rng, k=rng.randint(2, 4))
         trajs = [[rng.choice(labs)] for _ in range(rng.randint(2, 9))]
         yield {'trajs': trajs, 'lag': 1, 'form': rng.choice(['arr2', 'loa', 'lol']), 'dtype': 'int64', 'alpha': 'single-frames'}
+    for _ in range(G.budget(40) if tier == 'quick' else 1000):      # zero-length trajectories inside the set
+        labs, akind = G.alphabet(rng)
+        lag = rng.choice([1, 1, 2, 3, 5])
+        trajs = G.trajset(rng, labs, lag=lag, big=False)
+        trajs = G.insert_empties(trajs, G.empty_positions(rng, len(trajs)))
+        dts = [d for d in ('int8', 'int16', 'int32', 'int64') if G.fits(trajs, d)]
+        yield {'trajs': trajs, 'lag': lag, 'form': rng.choice(['loa', 'loa', 'toa', 'obj']), 'dtype': rng.choice(dts), 'alpha': akind + '+empty'}
+    for _ in range(G.budget(6) if tier == 'quick' else 60):         # several hundred trajectories
+        labs, akind = G.alphabet(rng, k=rng.randint(2, 4))
+        lag = rng.choice([1, 2, 3, 4, 7])
+        yield {'trajs': G.many_short(rng, labs, lag), 'lag': lag, 'form': rng.choice(['loa', 'lol', 'obj']), 'dtype': 'int64', 'alpha': akind + '+many'}
+    for _ in range(1 if tier == 'quick' else 4):                     # a trajectory of more than 2^16 frames
+        labs, akind = G.alphabet(rng, k=rng.randint(2, 4))
+        yield {'trajs': [G.traj(rng, labs, rng.randint(66000, 72000), sticky=0.6), G.traj(rng, labs, 5)], 'lag': rng.choice([2, 3, 7]),
+               'form': 'loa', 'dtype': 'int64', 'alpha': akind + '+long'}
     if tier == 'thorough':
         labs = [0, 1, 2]
         for total in range(1, 9):
@@ -49,6 +64,10 @@ def gen(rng, tier):
                     for lag in (1, 2, 3, 4):
                         yield {'trajs': trajs, 'lag': lag, 'form': 'loa', 'dtype': 'int64', 'alpha': 'enum'}
         yield 'EXHAUSTIVE'
+
+
+def gen(rng, tier):
+    return G.with_layouts(rng, _gen0(rng, tier), p_alt=0.15)
 
 
 def corpus():
@@ -83,15 +102,25 @@ def shrink(case):
 def impl(case):
     import msmhelper as mh
     from implutil import build, canon
-    data = build(case['form'], case['trajs'], case.get('dtypes') or [case['dtype']])
+    data = build(case['form'], case['trajs'], case.get('dtypes') or [case['dtype']], case.get('layout'))
     T, st = mh.msm.estimate_markov_model(data, case['lag'])
-    data2 = build(case['form'], case['trajs'], case.get('dtypes') or [case['dtype']])
-    T2, st2 = mh.StateTraj(data2).estimate_markov_model(case['lag'])
-    return {'T': canon(T), 'st': canon(st), 'T2': canon(T2), 'st2': canon(st2)}
+    data2 = build(case['form'], case['trajs'], case.get('dtypes') or [case['dtype']], case.get('layout'))
+    obj = mh.StateTraj(data2)
+    T2, st2 = obj.estimate_markov_model(case['lag'])
+    out = {'T': canon(T), 'st': canon(st), 'T2': canon(T2), 'st2': canon(st2)}
+    # the caller owns what was returned: overwriting it must not reach a later estimate on the same object
+    import numpy as np
+    if isinstance(T2, np.ndarray) and isinstance(st2, np.ndarray) and st2.size:
+        T2[...] = -7.0
+        st2 += 1
+        T3, st3 = obj.estimate_markov_model(case['lag'])
+        T4, st4 = mh.msm.estimate_markov_model(obj, case['lag'])
+        out['fresh'] = canon(T3) == out['T2'] and canon(st3) == out['st2'] and canon(T4) == out['T2'] and canon(st4) == out['st2']
+    return out
 
 
 def requests(case):
-    return [[101] + C.enested(case['trajs']) + [case['lag']]]
+    return [[C.emm_entry(case['trajs'])] + C.enested(case['trajs']) + [case['lag']]]
 
 
 def decode(ans):
@@ -137,6 +166,8 @@ def judge(case, ibc, answers):
                     [str(spec_T[i][j]) for i, j in bad]))
         if r['T'] != r['T2'] or r['st'] != r['st2']:
             P('impl-vs-spec', 'function API and StateTraj method disagree')
+        if r.get('fresh') is False:
+            P('impl-vs-spec', 'overwriting the returned (T, states) changes a later estimate on the same StateTraj object')
     return probs
 
 
@@ -153,7 +184,7 @@ def nontrivial(case, ibc):
 
 def describe(case, ibc):
     r = next(iter(ibc.values()))
-    return ['form:' + case['form'], 'dtype:' + case['dtype'], 'alphabet:' + case['alpha'],
+    return ['form:' + case['form'] + ('/' + case['layout'] if case.get('layout') else ''), 'dtype:' + case['dtype'], 'alphabet:' + case['alpha'],
             'ntraj:%d' % len(case['trajs']), 'lag:%d' % case['lag'],
             'short:%s' % any(len(t) <= case['lag'] for t in case['trajs']),
             'outcome:' + ('err-' + r['err'] if 'err' in r else 'ok')]
